@@ -126,26 +126,63 @@ def mono_task(sign, jlist):
                 raise M.BoundExceeded(f'j={j}: expected one merged path per tick, got {len(ot)}/{len(ou)}')
             (pt, rt), (pu, ru) = ot[0], ou[0]
             ft, fu = rt.t, ru.t
-            hints = []
+            sg = 'pos' if sign > 0 else 'neg'
+            depth_memo = {}
+            def depth(t):
+                if t[0] in ('c', 'v', 'bv', 'true', 'false'): return 0
+                k = id(t)
+                if k not in depth_memo: depth_memo[k] = 1 + max([depth(x) for x in t[1:] if isinstance(x, tuple)] + [0])
+                return depth_memo[k]
+            stages = []
             for x, y in stage_pairs(ft, fu):
-                # x = ite(c, stage(ra), ra), y = ite(c, stage(rb), rb): instance of the proved stage lemma
-                ra, rb = x[3], y[3]
-                sa, sb = x[2], y[2]
+                sa = x[2]
                 if not (sa[0] == 'div' and sa[1][0] == '*' and T.is_c(sa[1][1])): continue
-                cst, w = sa[1][1][1], sa[2][1]
-                if (cst, w) not in lem: continue
-                lo_, hi_ = (ra, rb) if sign > 0 else (rb, ra)   # lo_ < hi_ expected (positive: price(t) < price(t+1))
-                sl, sh = (x, y) if sign > 0 else (y, x)         # merged stage outputs: instances of the conditional-stage lemma
+                if (sa[1][1][1], sa[2][1]) not in lem: continue
+                stages.append((depth(x), x, y))
+            stages.sort(key=lambda s_: s_[0])
+            rel_hints, num_hint, G = [], None, None
+            ok_chain = True
+            for k, (_, x, y) in enumerate(stages):
+                ra, rb = x[3], y[3]
+                cst, w = x[2][1][1][1], x[2][2][1]
+                lo_, hi_ = (ra, rb) if sign > 0 else (rb, ra)
+                sl, sh = (x, y) if sign > 0 else (y, x)
                 if cst >= w:
                     inst = T.cmp('>=', T.sub(sh, sl), T.sub(hi_, lo_))
                 else:
                     inst = T.cmp('>=', T.mul(C(w), T.sub(sh, sl)), T.add(T.sub(T.mul(T.sub(hi_, lo_), C(cst)), C(w)), C(1)))
-                hints.append(T.implies(T.cmp('<', lo_, hi_), inst))
+                inst = T.implies(T.cmp('<', lo_, hi_), inst)
+                rel_hints.append(inst)
+                if G is None:
+                    def gap_min(a, b):
+                        if T.is_c(a) and T.is_c(b): return b[1] - a[1]
+                        if a[0] == 'ite' and b[0] == 'ite' and a[1] == b[1]:
+                            g1, g0 = gap_min(a[2], b[2]), gap_min(a[3], b[3])
+                            return None if g1 is None or g0 is None else min(g1, g0)
+                        return None
+                    G = gap_min(lo_, hi_)       # the chains start from constants (low stages are folded): A_j < B_j, possibly under a few already-folded conditions
+                    if G is None or G <= 0: ok_chain = False; break
+                    prev = T.cmp('>=', T.sub(hi_, lo_), C(G))
+                    o = M.Obligation(f'mono:{sg}:j={j}:stage_init:gap>={G}', pt.pc + pu.pc, prev, note='gap between the two folded starting values'); o.replay = None; obls.append(o)
+                else:
+                    prev = num_hint
+                Gn = G if cst >= w else min(G, -((-(G * cst - w + 1)) // w))
+                goal_k = T.cmp('>=', T.sub(sh, sl), C(Gn))
+                o = M.Obligation(f'mono:{sg}:j={j}:stage{k}:gap>={Gn}', pt.pc + pu.pc + [prev, inst], goal_k,
+                                 note=f'gap after this conditional stage (constant {cst}) is at least {Gn} given gap >= {G} before it (instance of the proved stage lemma)')
+                o.replay = None; obls.append(o)
+                num_hint, G = goal_k, Gn
             goal = T.cmp('<', ft, fu) if sign > 0 else T.cmp('<', fu, ft)
-            o = M.Obligation(f'mono:{"pos" if sign > 0 else "neg"}:chain:j={j}', pt.pc + pu.pc + hints, goal,
-                             note=f'p(t) < p(t+1) for every t whose lowest zero bit is bit {j} ({len(hints)} stage-lemma instances as hints)')
+            if ok_chain and num_hint is not None:
+                o = M.Obligation(f'mono:{sg}:chain:j={j}', pt.pc + pu.pc + [num_hint], goal,
+                                 note=f'p(t) < p(t+1) for every t whose lowest zero bit is bit {j}: final gap >= {G}, established stage by stage ({len(stages)} stages)')
+            else:
+                o = M.Obligation(f'mono:{sg}:chain:j={j}', pt.pc + pu.pc + rel_hints, goal, note='monolithic chain query with stage-lemma instances as hints')
             o.replay = dict(custom=mono_replay(sign, j, sy))
             obls.append(o)
+            if ctx.tier == 'thorough':
+                o = M.Obligation(f'mono:{sg}:chain_monolithic:j={j}', pt.pc + pu.pc + rel_hints, goal, note='cross-check: one query over the whole chain with relative stage-lemma instances')
+                o.replay = dict(custom=mono_replay(sign, j, sy)); obls.append(o)
         for o in obls: o.abstract_div = True
         ctx.functions.update(e.executed)
         ctx.discharge(obls, cap=ctx.cap(300, 900))
